@@ -736,6 +736,31 @@ def explain_if_tests(sources: Dict[str, str]) -> Dict[str, str]:
     return out
 
 
+def invert_return_guards(sources: Dict[str, str]) -> Dict[str, str]:
+    """At the top level of a function body: `if c: return` (bare) followed by the rest  ->  `if not c: <rest>`."""
+    def conv(body):
+        for i, st in enumerate(body):
+            if isinstance(st, ast.If) and not st.orelse and len(st.body) == 1 and isinstance(st.body[0], ast.Return) and (st.body[0].value is None or (
+                    isinstance(st.body[0].value, ast.Constant) and st.body[0].value.value is None)) and i + 1 < len(body):
+                rest = conv(body[i + 1:])
+                if any(isinstance(x, ast.Return) and x.value is not None and not (isinstance(x.value, ast.Constant) and x.value.value is None) for r_ in rest for x in ast.walk(r_)):
+                    return body  # the rest returns values: falling off the end would differ
+                t = st.test.operand if isinstance(st.test, ast.UnaryOp) and isinstance(st.test.op, ast.Not) else ast.UnaryOp(op=ast.Not(), operand=st.test)
+                new = ast.If(test=t, body=rest, orelse=[])
+                ast.copy_location(new, st)
+                return body[:i] + [new]
+        return body
+    out = {}
+    for p, s in sources.items():
+        tree = ast.parse(s)
+        for n in ast.walk(tree):
+            if isinstance(n, (ast.FunctionDef, ast.AsyncFunctionDef)) and not any(isinstance(x, (ast.Yield, ast.YieldFrom)) for x in ast.walk(n)):
+                n.body = conv(n.body)
+        ast.fix_missing_locations(tree)
+        out[p] = ast.unparse(tree)
+    return out
+
+
 def rename_all_locals(sources: Dict[str, str]) -> Dict[str, str]:
     out = {}
     for p, s in sources.items():
@@ -819,6 +844,8 @@ def _worker(args):
             overlay = hoist_string_keys(sources)
         elif m.old == "<explain-if-tests>":
             overlay = explain_if_tests(sources)
+        elif m.old == "<invert-return-guards>":
+            overlay = invert_return_guards(sources)
         elif m.old == "<keywords-at-call-sites>":
             overlay = keywords_at_call_sites(sources)
         elif m.old == "<swap-if-else>":
@@ -873,6 +900,7 @@ GENERIC = [
     M("empty displays written as constructor calls ([] -> list(), {} -> dict())", "", None, "<empty-literals-as-calls>", "", kind="equiv"),
     M("string literals used as keys hoisted into module-level constants", "", None, "<hoist-string-keys>", "", kind="equiv"),
     M("every compound if-test moved into an explaining variable on the line before", "", None, "<explain-if-tests>", "", kind="equiv"),
+    M("function-level guards `if c: return` rewritten as `if not c: <rest of the body>`", "", None, "<invert-return-guards>", "", kind="equiv"),
     M("methods of every class in reverse source order", "", None, "<reverse-methods>", "", kind="equiv"),
     M("swap the branches of every plain if/else under the negated test", "", None, "<swap-if-else>", "", kind="equiv"),
     M("annotate every local that is assigned once (x = v  ->  x: object = v)", "", None, "<annotate-single-assignments>", "", kind="equiv"),
